@@ -33,7 +33,7 @@ ASSUMPTIONS = [
     "admissible = the structure the call would produce contains every node object at most once, has no cycle, and every node to be (re-)attached has a free id",
     "operations that raise (documented or not) end the history without verdict and are counted; rejected operations are C19's subject",
 ]
-MUST_SEE = ["explicit_ids", "replace_by_equal_value_of_other_type", "replace_depth_ge2", "remove_middle_of_sequence", "op_on_stale", "twins", "ops_ok", "replace_with_node", "replace_with_none", "transform_visitor", "transformer_execute", "attach_detached_subtree", "duplicate", "checks_deep", "twin_sequences", "replacement_is_detached_clone_of_attached_node"]
+MUST_SEE = ["cross_tree_ancestor_queries", "explicit_ids", "replace_by_equal_value_of_other_type", "replace_depth_ge2", "remove_middle_of_sequence", "op_on_stale", "twins", "ops_ok", "replace_with_node", "replace_with_none", "transform_visitor", "transformer_execute", "attach_detached_subtree", "duplicate", "checks_deep", "twin_sequences", "replacement_is_detached_clone_of_attached_node"]
 CONFIG = {
     "quick": {"shards": 16, "histories": 100, "ops": 30, "watchdog_s": 600},
     "thorough": {"shards": 32, "histories": 400, "ops": 50, "watchdog_s": 3400},
@@ -615,6 +615,7 @@ class Runner:
                 detail["alias_mode"] = self.alias_mode
                 ctx.violation(mech, what, detail)
                 return kinds
+        ctx.count("cross_tree_ancestor_queries", self.F.cross_tree_ancestor_queries)
         twins = {}
         for n in self.F.handles:
             twins.setdefault((type(n).__name__, n.content_id), []).append(n)
